@@ -168,10 +168,17 @@ theorem visible_eq_vis (g : Ghost) (s : State) (a : Ask) (p : Params) (h : Refin
   cases isIgnored s.conf e.host <;> cases clientIgnored s.conf e.cid e.ip <;> simp
 
 
-theorem items_fst (es : List Entry) : (es.map (fun e => (e.id, true))).map (·.1) = es.map (·.id) := by
+theorem items_fst (c : Conf) (es : List Entry) :
+    (es.map (fun e => (⟨e.id, true, shownClient c e⟩ : Item))).map (·.id) = es.map (·.id) := by
   simp [Function.comp_def]
 
-theorem items_all (es : List Entry) : (es.map (fun e : Entry => (e.id, true))).all (·.2) = true := by
+theorem items_pairs (c : Conf) (es : List Entry) :
+    (es.map (fun e => (⟨e.id, true, shownClient c e⟩ : Item))).map (fun it => (it.id, it.client)) =
+      es.map (fun e => (e.id, reportedClient c e)) := by
+  simp [Function.comp_def, shownClient, reportedClient]
+
+theorem items_all (c : Conf) (es : List Entry) :
+    (es.map (fun e : Entry => (⟨e.id, true, shownClient c e⟩ : Item))).all (·.payloadOK) = true := by
   simp
 
 /-- The monitor accepts every answer of the model. -/
@@ -195,18 +202,26 @@ theorem specSearch_ok (g : Ghost) (s : State) (sd : Int) (r : Req) (h : Refines 
       simp only [Except.ok.injEq] at hresp
       subst hresp
       have ha0 : a.limit = 0 := by omega
-      simp [specSearch, hask, ha0]
+      have h1 : ([] : List Nat).isSublist ((visible g a).map (fun x => x.id)) = true :=
+        List.isSublist_iff_sublist.mpr (List.nil_sublist _)
+      have h2 : ([] : List (Nat × Bytes)).isSublist
+          ((visible g a).map (fun e => (e.id, reportedClient g.conf e))) = true :=
+        List.isSublist_iff_sublist.mpr (List.nil_sublist _)
+      simp [specSearch, hask, ha0, h1, h2]
     · have hv := validP_of_parse sd r p hp hl0
       obtain ⟨D, O, hs, hsub, hlen⟩ := search_sound s p hi hv
       rw [hs] at hresp
       simp only [Except.ok.injEq] at hresp
       subst hresp
-      simp only [specSearch, hask, items_fst, items_all, hvis]
+      simp only [specSearch, hask, items_fst, items_all, items_pairs, hvis, h.2]
       have hsubl : (D.map (·.id)).isSublist ((vis s p).map (·.id)) = true :=
+        List.isSublist_iff_sublist.mpr (hsub.map _)
+      have hsubc : (D.map (fun e => (e.id, reportedClient s.conf e))).isSublist
+          ((vis s p).map (fun e => (e.id, reportedClient s.conf e))) = true :=
         List.isSublist_iff_sublist.mpr (hsub.map _)
       have hlen' : ¬ (D.map (·.id)).length > a.limit := by simp; omega
       have hal : ¬ a.limit = 0 := by omega
-      simp only [hsubl, Bool.not_true, Bool.false_eq_true, if_false, hlen', hal]
+      simp only [hsubl, hsubc, Bool.not_true, Bool.false_eq_true, if_false, hlen', hal]
       -- the cursor clause
       cases hcur : cursorKnown g a.olderThan with
       | false => simp
